@@ -369,6 +369,7 @@ func genTwoRunReset(seed int64, n int, tier string) []Script {
 				tags = append(tags, "resetdata")
 			}
 			suf := suffixOps(r, rest, B)
+			staleNTL := false
 			staleLong := (kind == "DHP" || kind == "BDHP") && !margin && r.Intn(2) == 0
 			if staleLong {
 				// A long-gram entry that survives Reset: the history has the
@@ -405,6 +406,18 @@ func genTwoRunReset(seed int64, n int, tier string) []Script {
 				suf = []map[string]any{op}
 				reset = map[string]any{"op": "reset"}
 				tags = append(tags, "stale-long-gram")
+				if r.Intn(2) == 0 {
+					// the same entry, but lying *behind* the parse position when
+					// Reset comes: the history starts with a repeat (one match,
+					// ending at 12) and is parsed once with NoTrailingLiterals,
+					// so W = 12 while the dictionary holds positions up to the
+					// end of the data. A Reset that forgets only what lies in
+					// front of W keeps (q, L), 12 bytes further down.
+					cfg["BlockSize"] = B
+					pre = append([]byte("abcabcabcabc"), pre...)
+					staleNTL = true
+					tags = append(tags, "stale-behind-w")
+				}
 			}
 			staleGram := (kind == "HP" || kind == "BHP") && !margin && r.Intn(2) == 0
 			if staleGram {
@@ -486,8 +499,12 @@ func genTwoRunReset(seed int64, n int, tier string) []Script {
 			if staleLong || staleGram {
 				hist["chunk"], hist["mode"], hist["pearly"], hist["pnil"], hist["pprobe"], hist["pstop"] = len(pre)+1, "write", 0, 0, 0, 0
 			}
-			ops = append(ops, hist)
-			if r.Intn(3) == 0 {
+			if staleNTL {
+				ops = append(ops, map[string]any{"op": "write", "p": B2(pre)}, map[string]any{"op": "parse", "flags": 1})
+			} else {
+				ops = append(ops, hist)
+			}
+			if !staleNTL && r.Intn(3) == 0 {
 				pre2, _ := genInput(r, r.Intn(80))
 				ops = append(ops, map[string]any{"op": "write", "p": B2(pre2)})
 			}
